@@ -9,7 +9,7 @@ from vt.mon import contracts
 PROP = 'C05'
 TITLE = 'regexp matching and simplification'
 SHARDS = {'quick': 8, 'thorough': 32}
-TIMEOUT = {'quick': 600, 'thorough': 3000}
+TIMEOUT = {'quick': 420, 'thorough': 3000}
 REQUIRED = ['regexp_accepts_word', 'regexp_simplify']
 EXHAUSTIVE_NOTE = 'all expression trees with <=6 nodes (<=7 in the thorough tier) over the leaves {0,1,a,b}, each with all words over {a,b} up to the bound plus words with a foreign symbol'
 RULE = ('cases are expression trees: complete enumeration by node count, seeded random deep trees (depth <=12) biased to (r*)*, (1+r)*, (0r)*, 0/1 inside '
